@@ -145,24 +145,27 @@ Proof.
 Qed.
 
 Definition letters : list (N * N) := [(65, 90); (97, 122)].
-Definition start_ok : list (N * N) := [(36, 36); (65, 90); (95, 95); (97, 122)].
-Definition rest_ok : list (N * N) := [(36, 36); (48, 57); (65, 90); (95, 95); (97, 122)].
+Definition start_ok : list (N * N) := [(65, 90); (95, 95); (97, 122)].
+Definition rest_ok : list (N * N) := [(48, 57); (65, 90); (95, 95); (97, 122)].
 
-(* what the proofs need from the generated tables (decidable; checked by vm_compute in Props) *)
+Definition lit_words : list str := [w_true; w_false; w_null].
+Definition covers (big small : list str) : bool := forallb (fun w => existsb (leqb w) big) small.
+
+(* what the proofs need from the generated tables (decidable; checked by vm_compute in Props):
+   the bare classes of both printers lie within the lexer's plain identifiers, every word the lexer reads as a keyword or
+   literal is in both printers' reserved lists, and keywords are lower-case ASCII words *)
 Definition idtab_ok (T : idtab) : bool :=
   ranges_sub (it_fmt_start T) start_ok && ranges_sub (it_fmt_rest T) rest_ok &&
   ranges_sub (it_disp_start T) start_ok && ranges_sub (it_disp_rest T) rest_ok &&
+  covers (it_fmt_keywords T) (it_lex_keywords T ++ lit_words) &&
+  covers (it_disp_reserved T) (it_lex_keywords T ++ lit_words) &&
   forallb (fun w => match w with [] => false | _ => forallb (fun c => in_range c 97 122) w end) (it_lex_keywords T).
 
-Definition lit_words : list str := [w_true; w_false; w_null].
 Definition is_word (T : idtab) (s : str) : bool := existsb (leqb s) (it_lex_keywords T ++ lit_words).
 
-(* the known class: printed bare although the text does not lex back as that identifier *)
-Definition write_known (T : idtab) (s : str) : bool :=
-  valid_prql_ident T s && negb (existsb (leqb s) (it_fmt_keywords T)) && (is_star s || contains 36 s || is_word T s).
-Definition display_bare (T : idtab) (s : str) : bool :=
-  match s with [] => false | c :: t => in_ranges (it_disp_start T) c && forallb (in_ranges (it_disp_rest T)) t end.
-Definition display_known (T : idtab) (s : str) : bool := display_bare T s && (contains 36 s || is_word T s).
+(* the remaining known class of write_ident_part: the wildcard `*` is left bare (valid_prql_ident accepts it) although a
+   bare `*` is not an identifier token *)
+Definition write_known (T : idtab) (s : str) : bool := is_star s.
 
 Definition alnum_ascii : list (N * N) := [(48, 57); (65, 90); (97, 122)].
 
@@ -188,7 +191,7 @@ Section Idents.
 
   Lemma kw_chars w : In w (it_lex_keywords T) -> w <> [] /\ forallb (fun c => in_range c 97 122) w = true.
   Proof.
-    intro Hin. unfold idtab_ok in TOK. apply andb_true_iff in TOK as [_ H]. rewrite forallb_forall in H.
+    intro Hin. pose proof TOK as TK. unfold idtab_ok in TK. apply andb_true_iff in TK as [_ H]. rewrite forallb_forall in H.
     specialize (H w Hin). destruct w; [discriminate|]. split; [discriminate | exact H].
   Qed.
   Lemma lit_chars w : In w lit_words -> w <> [] /\ forallb (fun c => in_range c 97 122) w = true.
@@ -276,48 +279,52 @@ Section Idents.
     - rewrite N.eqb_refl. reflexivity.
   Qed.
 
-  Lemma in_rest_ok c : in_ranges rest_ok c = true -> c <> 36 -> word_char c = true.
+  Lemma in_rest_ok c : in_ranges rest_ok c = true -> word_char c = true.
   Proof.
-    unfold in_ranges, rest_ok, in_range. cbn [existsb fst snd]. intros H Hd. unfold word_char.
+    unfold in_ranges, rest_ok, in_range. cbn [existsb fst snd]. intros H. unfold word_char.
     repeat (apply orb_true_iff in H as [H|H]); try discriminate H;
       apply andb_true_iff in H as [H1 H2]; apply N.leb_le in H1, H2;
-      try (assert (c = 36) by lia; contradiction);
       try (assert (c = 95) as -> by lia; rewrite orb_true_r; reflexivity);
       (rewrite ascii_alnum by lia; unfold in_ranges, alnum_ascii, in_range; cbn [existsb fst snd];
        apply N.leb_le in H1, H2; rewrite H1, H2; cbn [andb orb]; rewrite ?orb_true_r; reflexivity).
   Qed.
-  Lemma in_start_ok c : in_ranges start_ok c = true -> c <> 36 -> is_alpha c || (c =? c_underscore) = true.
+  Lemma in_start_ok c : in_ranges start_ok c = true -> is_alpha c || (c =? c_underscore) = true.
   Proof.
-    unfold in_ranges, start_ok, in_range. cbn [existsb fst snd]. intros H Hd.
+    unfold in_ranges, start_ok, in_range. cbn [existsb fst snd]. intros H.
     repeat (apply orb_true_iff in H as [H|H]); try discriminate H;
       apply andb_true_iff in H as [H1 H2]; apply N.leb_le in H1, H2;
-      try (assert (c = 36) by lia; contradiction);
       try (assert (c = 95) as -> by lia; rewrite orb_true_r; reflexivity);
       (rewrite ascii_alpha by lia; unfold in_ranges, letters, in_range; cbn [existsb fst snd];
        apply N.leb_le in H1, H2; rewrite H1, H2; cbn [andb orb]; rewrite ?orb_true_r; reflexivity).
   Qed.
 
-  Lemma no_dollar_forall (p : N -> bool) t : contains 36 t = false -> forallb p t = true ->
-    (forall c, p c = true -> c <> 36 -> word_char c = true) -> forallb word_char t = true.
+  Lemma forallb_imp (p r : N -> bool) t : (forall c, p c = true -> r c = true) -> forallb p t = true -> forallb r t = true.
   Proof.
-    intros Hd Hp Himp. induction t as [|c r IH]; [reflexivity|]. cbn [contains existsb forallb] in *.
-    apply orb_false_iff in Hd as [Hc Hr]. apply andb_true_iff in Hp as [Hpc Hpr].
-    rewrite (Himp c Hpc); [|intros ->; discriminate Hc]. apply IH; assumption.
+    intros Himp. induction t as [|c u IH]; [reflexivity|]. cbn [forallb]. intro H. apply andb_true_iff in H as [Hc Hu].
+    rewrite (Himp c Hc), (IH Hu). reflexivity.
   Qed.
 
   Lemma bare_lexes (start rest_r : list (N * N)) c t rest :
     ranges_sub start start_ok = true -> ranges_sub rest_r rest_ok = true ->
     in_ranges start c = true -> forallb (in_ranges rest_r) t = true ->
-    contains 36 (c :: t) = false -> is_word T (c :: t) = false -> delim rest ->
+    is_word T (c :: t) = false -> delim rest ->
     lexw ((c :: t) ++ rest) = Some (WIdent (c :: t), rest).
   Proof.
-    intros S1 S2 Hc Ht Hd Hw Hdl. cbn [contains existsb] in Hd. apply orb_false_iff in Hd as [Hdc Hdt].
-    assert (c <> 36) as Hc36 by (intros ->; discriminate Hdc).
-    pose proof (in_start_ok c (ranges_sub_in _ _ _ S1 Hc) Hc36) as Hstart.
+    intros S1 S2 Hc Ht Hw Hdl.
+    pose proof (in_start_ok c (ranges_sub_in _ _ _ S1 Hc)) as Hstart.
     apply lex_bare; [ | exact Hstart | exact Hw | exact Hdl].
     cbn [forallb]. apply andb_true_iff. split.
     - unfold word_char. apply orb_true_iff in Hstart as [Ha|Hu]; [rewrite (alpha_alnum c Ha); reflexivity | rewrite Hu; apply orb_true_r].
-    - apply (no_dollar_forall (in_ranges rest_r)); [exact Hdt | exact Ht|]. intros x Hx. apply in_rest_ok. exact (ranges_sub_in _ _ _ S2 Hx).
+    - apply (forallb_imp (in_ranges rest_r)); [|exact Ht]. intros x Hx. apply in_rest_ok. exact (ranges_sub_in _ _ _ S2 Hx).
+  Qed.
+
+  (* a name outside a printer's reserved list is no keyword / literal word when that list covers them *)
+  Lemma not_reserved_not_word big s : covers big (it_lex_keywords T ++ lit_words) = true ->
+    existsb (leqb s) big = false -> is_word T s = false.
+  Proof.
+    intros Hc Hn. unfold is_word. destruct (existsb (leqb s) (it_lex_keywords T ++ lit_words)) eqn:E; [|reflexivity].
+    apply existsb_exists in E as [w [Hin Hw]]. apply leqb_spec in Hw. subst w.
+    unfold covers in Hc. rewrite forallb_forall in Hc. rewrite (Hc s Hin) in Hn. discriminate.
   Qed.
 
   Theorem write_ident_lexes s rest : contains c_backtick s = false -> write_known T s = false -> delim rest ->
@@ -325,22 +332,24 @@ Section Idents.
   Proof.
     intros Hb Hk Hd. unfold write_ident_part, write_known in *.
     destruct (valid_prql_ident T s && negb (existsb (leqb s) (it_fmt_keywords T))) eqn:B; [|apply lex_bt; exact Hb].
-    cbn [andb] in Hk. apply orb_false_iff in Hk as [Hk Hw]. apply orb_false_iff in Hk as [Hstar Hdol].
-    apply andb_true_iff in B as [Hv _]. unfold valid_prql_ident in Hv. rewrite Hstar in Hv. cbn [orb] in Hv.
+    apply andb_true_iff in B as [Hv Hkw]. apply negb_true_iff in Hkw. unfold valid_prql_ident in Hv. rewrite Hk in Hv. cbn [orb] in Hv.
     destruct s as [|c t]; [discriminate|]. apply andb_true_iff in Hv as [Hc Ht].
     pose proof TOK as TK. unfold idtab_ok in TK. repeat (apply andb_true_iff in TK as [TK ?]).
-    apply (bare_lexes (it_fmt_start T) (it_fmt_rest T)); assumption.
+    apply (bare_lexes (it_fmt_start T) (it_fmt_rest T)); try assumption.
+    apply (not_reserved_not_word (it_fmt_keywords T)); assumption.
   Qed.
 
-  Theorem display_ident_lexes s rest : contains c_backtick s = false -> display_known T s = false -> delim rest ->
+  Theorem display_ident_lexes s rest : contains c_backtick s = false -> delim rest ->
     lexw (display_ident_part T s ++ rest) = Some (WIdent s, rest).
   Proof.
-    intros Hb Hk Hd. unfold display_ident_part, display_known, display_bare in *.
+    intros Hb Hd. unfold display_ident_part.
     destruct s as [|c t]; [apply lex_bt; exact Hb|].
-    destruct (in_ranges (it_disp_start T) c && forallb (in_ranges (it_disp_rest T)) t) eqn:B; [|apply lex_bt; exact Hb].
-    cbn [andb] in Hk. apply orb_false_iff in Hk as [Hdol Hw]. apply andb_true_iff in B as [Hc Ht].
+    destruct (in_ranges (it_disp_start T) c && forallb (in_ranges (it_disp_rest T)) t && negb (existsb (leqb (c :: t)) (it_disp_reserved T))) eqn:B;
+      [|apply lex_bt; exact Hb].
+    apply andb_true_iff in B as [B Hres]. apply negb_true_iff in Hres. apply andb_true_iff in B as [Hc Ht].
     pose proof TOK as TK. unfold idtab_ok in TK. repeat (apply andb_true_iff in TK as [TK ?]).
-    apply (bare_lexes (it_disp_start T) (it_disp_rest T)); assumption.
+    apply (bare_lexes (it_disp_start T) (it_disp_rest T)); try assumption.
+    apply (not_reserved_not_word (it_disp_reserved T)); assumption.
   Qed.
 End Idents.
 
@@ -505,20 +514,102 @@ Proof. induction n as [|n IH]; [reflexivity|]. cbn [repeat app count_prefix]. re
 Lemma skipn_repeat {A} (x : A) n r : skipn n (repeat x n ++ r) = r.
 Proof. induction n as [|n IH]; [reflexivity|]. exact IH. Qed.
 
-(* the content loop decodes the escaped value, provided no chunk boundary looks like the closing delimiter *)
-Lemma content_decodes q n : forall s acc fuel, forallb valid_scalar s = true -> (length s < fuel)%nat ->
-  (forall s1 s2, s = s1 ++ s2 -> s2 <> [] -> (count_prefix q (esc s2 ++ repeat q n) < n)%nat) ->
-  lex_content fuel q n (esc s ++ repeat q n) acc = Some (rev acc ++ s, []).
+(* the content loop decodes a value printed chunk by chunk (`ch` = text of one character), provided every chunk decodes
+   to its character and no chunk boundary looks like the closing delimiter *)
+Lemma content_gen (ch : N -> str) q n :
+  (forall c rest fuel acc, valid_scalar c = true -> (n <=? count_prefix q (ch c ++ rest))%nat = false ->
+     lex_content (S fuel) q n (ch c ++ rest) acc = lex_content fuel q n rest (c :: acc)) ->
+  forall s acc fuel, forallb valid_scalar s = true -> (length s < fuel)%nat ->
+  (forall s1 s2, s = s1 ++ s2 -> s2 <> [] -> (count_prefix q (flat_map ch s2 ++ repeat q n) < n)%nat) ->
+  lex_content fuel q n (flat_map ch s ++ repeat q n) acc = Some (rev acc ++ s, []).
 Proof.
-  induction s as [|c t IH]; intros acc fuel Hv Hf Hsuf.
-  - destruct fuel; [cbn in Hf; lia|]. rewrite lex_content_S. cbn [esc escape_all_except_quotes flat_map app].
+  intro Hstep. induction s as [|c t IH]; intros acc fuel Hv Hf Hsuf.
+  - destruct fuel; [cbn in Hf; lia|]. rewrite lex_content_S. cbn [flat_map app].
     rewrite <- (app_nil_r (repeat q n)) at 1. rewrite count_prefix_repeat. cbn [count_prefix].
     destruct (Nat.leb_spec n (n + 0)); [|lia]. rewrite <- (app_nil_r (repeat q n)) at 1. rewrite skipn_repeat, app_nil_r. reflexivity.
   - destruct fuel; [cbn in Hf; lia|]. cbn [forallb] in Hv. apply andb_true_iff in Hv as [Hc Ht].
-    rewrite esc_cons, <- app_assoc. rewrite chunk_step; [|exact Hc|].
+    cbn [flat_map]. rewrite <- app_assoc. rewrite Hstep; [|exact Hc|].
     + rewrite IH; [cbn [rev]; rewrite <- app_assoc; reflexivity | exact Ht | cbn [length] in Hf; lia|].
       intros s1 s2 E Hne. apply (Hsuf (c :: s1) s2); [rewrite E; reflexivity | exact Hne].
-    + apply Nat.leb_gt. rewrite app_assoc, <- esc_cons. apply (Hsuf [] (c :: t)); [reflexivity | discriminate].
+    + apply Nat.leb_gt. rewrite app_assoc. apply (Hsuf [] (c :: t)); [reflexivity | discriminate].
+Qed.
+
+Lemma content_decodes q n : forall s acc fuel, forallb valid_scalar s = true -> (length s < fuel)%nat ->
+  (forall s1 s2, s = s1 ++ s2 -> s2 <> [] -> (count_prefix q (esc s2 ++ repeat q n) < n)%nat) ->
+  lex_content fuel q n (esc s ++ repeat q n) acc = Some (rev acc ++ s, []).
+Proof. apply (content_gen escape_char q n). intros c rest fuel acc Hv Hcp. apply chunk_step; assumption. Qed.
+
+(* ---- the escaping branch of quote_string: every double quote of the escaped text becomes backslash double-quote *)
+Definition esc2 (c : N) : str := if c =? c_dquote then [c_bslash; c_dquote] else escape_char c.
+
+Lemma escape_dquotes_id l : forallb (fun c => negb (c =? c_dquote)) l = true -> escape_dquotes l = l.
+Proof.
+  unfold escape_dquotes. induction l as [|c t IH]; [reflexivity|]. cbn [forallb flat_map]. intro H. apply andb_true_iff in H as [Hc Ht].
+  apply negb_true_iff in Hc. rewrite Hc. cbn [app]. rewrite (IH Ht). reflexivity.
+Qed.
+Lemma escape_dquotes_app a b : escape_dquotes (a ++ b) = escape_dquotes a ++ escape_dquotes b.
+Proof. unfold escape_dquotes. apply flat_map_app. Qed.
+
+Lemma hexs_no_dquote l : hexs l -> forallb (fun c => negb (c =? c_dquote)) l = true.
+Proof.
+  induction 1 as [|c t [Hc _] Ht IH]; [reflexivity|]. cbn [forallb]. rewrite IH, andb_true_r.
+  destruct (N.eqb_spec c c_dquote) as [->|]; [discriminate Hc | reflexivity].
+Qed.
+
+Lemma escape_char_no_dquote c : valid_scalar c = true -> c <> c_dquote ->
+  forallb (fun x => negb (x =? c_dquote)) (escape_char c) = true.
+Proof.
+  intros Hv Hne. unfold escape_char, escape_default. unfold is_quote.
+  destruct (N.eqb_spec c c_dquote) as [|_]; [contradiction|]. cbn [orb].
+  destruct (N.eqb_spec c c_squote) as [->|]; [reflexivity|].
+  destruct (N.eqb_spec c 9); [reflexivity|]. destruct (N.eqb_spec c 13); [reflexivity|]. destruct (N.eqb_spec c 10); [reflexivity|].
+  destruct (N.eqb_spec c c_bslash); [reflexivity|].
+  destruct (in_range c 32 126).
+  - cbn [forallb]. destruct (N.eqb_spec c c_dquote); [contradiction | reflexivity].
+  - destruct (show_hex_spec c (valid_scalar_bound c Hv)) as [Hh _].
+    cbn [forallb]. change (negb (c_bslash =? c_dquote)) with true. change (negb (c_u =? c_dquote)) with true. change (negb (c_lbrace =? c_dquote)) with true.
+    cbn [andb]. rewrite forallb_app, (hexs_no_dquote _ Hh). reflexivity.
+Qed.
+
+Lemma escape_dquotes_esc s : forallb valid_scalar s = true -> escape_dquotes (esc s) = flat_map esc2 s.
+Proof.
+  induction s as [|c t IH]; [reflexivity|]. cbn [forallb]. intro H. apply andb_true_iff in H as [Hc Ht].
+  rewrite esc_cons, escape_dquotes_app, (IH Ht). cbn [flat_map]. f_equal. unfold esc2.
+  destruct (N.eqb_spec c c_dquote) as [->|Hne]; [reflexivity|]. apply escape_dquotes_id, escape_char_no_dquote; assumption.
+Qed.
+
+Lemma lex_escape_dq r : lex_escape c_dquote (c_dquote :: r) = (c_dquote, r). Proof. reflexivity. Qed.
+
+Lemma chunk_step2 c n rest fuel acc : valid_scalar c = true ->
+  (n <=? count_prefix c_dquote (esc2 c ++ rest))%nat = false ->
+  lex_content (S fuel) c_dquote n (esc2 c ++ rest) acc = lex_content fuel c_dquote n rest (c :: acc).
+Proof.
+  intros Hv Hcp. unfold esc2 in *. destruct (N.eqb_spec c c_dquote) as [->|Hne]; [|apply chunk_step; assumption].
+  rewrite lex_content_S, Hcp. cbn [app]. rewrite N.eqb_refl, lex_escape_dq. reflexivity.
+Qed.
+
+Lemma esc2_head c : match esc2 c with x :: _ => x <> c_dquote | [] => False end.
+Proof.
+  unfold esc2. destruct (N.eqb_spec c c_dquote) as [->|Hne]; [discriminate|]. apply escape_char_head; [reflexivity | exact Hne].
+Qed.
+
+Lemma escaped_branch s : forallb valid_scalar s = true -> s <> [] ->
+  lex_quoted c_dquote (c_dquote :: flat_map esc2 s ++ [c_dquote]) = Some (s, []).
+Proof.
+  intros Hv Hne.
+  assert (Hsuf : forall s1 s2, s = s1 ++ s2 -> s2 <> [] -> (count_prefix c_dquote (flat_map esc2 s2 ++ repeat c_dquote 1) < 1)%nat).
+  { intros s1 s2 _ H2. destruct s2 as [|c t]; [contradiction|]. cbn [flat_map]. pose proof (esc2_head c) as Hh.
+    destruct (esc2 c) as [|x r]; [contradiction|]. cbn [app count_prefix]. destruct (N.eqb_spec x c_dquote); [contradiction | lia]. }
+  unfold lex_quoted.
+  assert (Hcp : count_prefix c_dquote (c_dquote :: flat_map esc2 s ++ [c_dquote]) = 1%nat).
+  { cbn [count_prefix]. rewrite N.eqb_refl. pose proof (Hsuf [] s eq_refl Hne) as H. cbn [repeat] in H. lia. }
+  rewrite Hcp. cbn [Nat.eqb Nat.even skipn].
+  change [c_dquote] with (repeat c_dquote 1).
+  rewrite (content_gen esc2 c_dquote 1); [reflexivity | | exact Hv | | exact Hsuf].
+  - intros c rest fuel acc Hc Hcp'. apply chunk_step2; assumption.
+  - cbn [length]. rewrite app_length. cbn [length repeat]. assert (length s <= length (flat_map esc2 s))%nat; [|lia]. clear - Hv. induction s as [|c t IH]; [cbn; lia|].
+    cbn [flat_map forallb] in *. apply andb_true_iff in Hv as [_ Ht]. rewrite app_length. cbn [length].
+    pose proof (esc2_head c). destruct (esc2 c); [contradiction|]. cbn [length]. specialize (IH Ht). lia.
 Qed.
 
 Lemma count_prefix_app q a b :
@@ -597,10 +688,9 @@ Proof.
   rewrite !app_length, repeat_length. pose proof (esc_length s). lia.
 Qed.
 
-Theorem string_roundtrip s : forallb valid_scalar s = true -> quote_edge (esc s) = false ->
-  lex_string (fmt_string s) = Some (s, []).
+Theorem string_roundtrip s : forallb valid_scalar s = true -> lex_string (fmt_string s) = Some (s, []).
 Proof.
-  intros Hv He. unfold fmt_string, quote_string. fold (esc s).
+  intros Hv. unfold fmt_string, quote_string. fold (esc s).
   destruct (contains c_dquote (esc s)) eqn:Cd; cbn [negb].
   2:{ (* no double quote in the escaped text: one double quote as delimiter *)
     unfold lex_string. destruct s as [|c t].
@@ -625,11 +715,13 @@ Proof.
       assert (esc s2 <> []) as Hn2 by (intro X; apply esc_nil in X; contradiction).
       destruct (contains_false_forall _ _ Cs Hn2) as [Hf Hc]. rewrite count_prefix_app, Hf, Hc. lia. }
   (* both quotes occur *)
-  unfold quote_edge in He. rewrite Cd, Cs in He. cbn [andb] in He.
+  assert (s <> []) as Hne by (intros ->; discriminate Cd).
   set (q := if starts_with c_dquote (esc s) || ends_with c_dquote (esc s) then c_squote else c_dquote) in *.
+  destruct (starts_with q (esc s) || ends_with q (esc s)) eqn:He.
+  { (* the chosen quote starts or ends the content: double quotes are escaped, one double quote delimits *)
+    unfold lex_string. rewrite (escape_dquotes_esc s Hv), (escaped_branch s Hv Hne). reflexivity. }
   apply orb_false_iff in He as [Hst Hen].
   assert (Hq : is_quote q = true) by (unfold q; destruct (_ || _); reflexivity).
-  assert (s <> []) as Hne by (intros ->; discriminate Cd).
   destruct (next_odd_gt (max_run q (esc s))) as [Hgt Hodd].
   set (n := next_odd (max_run q (esc s))) in *.
   assert (Hsuf : forall s1 s2, s = s1 ++ s2 -> s2 <> [] -> (count_prefix q (esc s2 ++ repeat q n) < n)%nat).
@@ -646,10 +738,7 @@ Proof.
   - rewrite HL. reflexivity.
 Qed.
 
-(* the refutation witness: the two-character value  single-quote double-quote *)
-Lemma string_roundtrip_refuted_witness :
-  forallb valid_scalar [c_squote; c_dquote] = true /\ lex_string (fmt_string [c_squote; c_dquote]) <> Some ([c_squote; c_dquote], []).
-Proof. split; [reflexivity|]. vm_compute. discriminate. Qed.
+
 
 (* ------------------------------------------------------------------ floats *)
 Lemma zeros_digits k : forallb is_digit (zeros k) = true.
